@@ -311,6 +311,25 @@ pub fn check_format(text: &str, intended: Option<&Idl>, ws: &[usize]) -> Result<
     let pa = from_parsed(&a);
     if let Some(want) = intended {
         if let Some(d) = diff_parsed(&split_kinds(want), &pa, true) {
+            // the parser did not read the original as written (C11's subject). One consequence is
+            // visible without trusting the parser: the order in which the formatted text declares
+            // the members of each kind, read off the text itself.
+            let want = split_kinds(want);
+            let text = fmt_guard("get_multiline", usize::MAX, std::panic::AssertUnwindSafe(|| a.get_multiline(0, usize::MAX)))?;
+            for (kw, members) in [("type", &want.types), ("method", &want.methods), ("error", &want.errors)] {
+                let printed: Vec<&str> = text
+                    .lines()
+                    .filter_map(|l| l.strip_prefix(kw).and_then(|r| r.strip_prefix(' ')))
+                    .map(|r| r.split(|c: char| !(c.is_ascii_alphanumeric() || c == '_')).next().unwrap_or(""))
+                    .collect();
+                let declared: Vec<&str> = members.iter().map(|m| m.name.as_str()).collect();
+                if printed != declared && printed.len() == declared.len() {
+                    return Err(Fail::new(
+                        "format/definition-changed/member-order",
+                        format!("the original declares its {} members in the order {:?}, the formatted text in the order {:?}", kw, declared, printed),
+                    ));
+                }
+            }
             return Err(Fail::new("HARNESS/format-input-misparsed", d));
         }
     }
@@ -332,6 +351,19 @@ pub fn check_format(text: &str, intended: Option<&Idl>, ws: &[usize]) -> Result<
         if let Some(d) = diff_parsed(&pa, &pb, true) {
             let class = if d.contains("documentation") { "documentation" } else if d.contains("order of appearance") { "member-order" } else if d.contains("interface name") { "interface-name" } else { "definition" };
             return Err(Fail::new(format!("format/definition-changed/{}", class), format!("width {}: {}", w, d)));
+        }
+        // the documentation blocks as the parser hands them out, character for character
+        let raw = |i: &IDL| -> Vec<(String, String)> {
+            let mut v = vec![("interface".to_string(), i.doc.to_string())];
+            v.extend(i.typedefs.iter().map(|(k, t)| (format!("type {}", k), t.doc.to_string())));
+            v.extend(i.methods.iter().map(|(k, m)| (format!("method {}", k), m.doc.to_string())));
+            v.extend(i.errors.iter().map(|(k, e)| (format!("error {}", k), e.doc.to_string())));
+            v
+        };
+        for ((what, da), (_, db)) in raw(&a).into_iter().zip(raw(&b)) {
+            if da != db {
+                return Err(Fail::new("format/definition-changed/documentation-text", format!("width {}: documentation of {} is {:?} in the original and {:?} after formatting", w, what, da, db)));
+            }
         }
         let t2 = fmt_guard("get_multiline", w, std::panic::AssertUnwindSafe(|| b.get_multiline(0, w)))?;
         if t2 != t1 {
